@@ -1,12 +1,121 @@
+/-
+  C01 — Container extraction returns exactly the bytes the memory map designates.
+  Property theorems only; the spec objects/encoders (`SChunk`, `encMovie`, `encImap`, `encMmap`, `Genuine`)
+  and the helper lemmas are in DrxProofs/Riff.lean; the model is Drx/Riff.lean.
+-/
 import Drx.Riff
-import DrxProofs.Py
+import DrxProofs.Riff
 namespace Drx.C01
 open Drx Drx.Riff
 
-/-- FourCC ids are always four characters of the safe alphabet, whatever the bytes -/
-theorem sanitize_safe (b : UInt8) : ' ' ≤ sanitize b ∧ sanitize b ≤ 'z' := by
-  have h : ∀ n : Nat, n < 256 → (' ' ≤ sanitize (UInt8.ofNat n) ∧ sanitize (UInt8.ofNat n) ≤ 'z') := by decide +kernel
-  have := h b.toNat (UInt8.toNat_lt b)
-  simpa using this
+/-! (a) FourCC: always four characters of the safe alphabet, whatever the four bytes are, in both orders -/
+
+theorem fourcc_total (a b c d : UInt8) (o : Order) :
+    ∃ s, parseChunkId [a, b, c, d] 0 o = .ok s ∧ s.length = 4 ∧ ∀ ch ∈ s, ' ' ≤ ch ∧ ch ≤ 'z' := by
+  cases o
+  · refine ⟨[sanitize a, sanitize b, sanitize c, sanitize d], by simp [parseChunkId, slice], rfl, ?_⟩
+    intro ch h; simp at h; rcases h with rfl | rfl | rfl | rfl <;> exact sanitize_range _
+  · refine ⟨[sanitize d, sanitize c, sanitize b, sanitize a], by simp [parseChunkId, slice], rfl, ?_⟩
+    intro ch h; simp at h; rcases h with rfl | rfl | rfl | rfl <;> exact sanitize_range _
+
+/-- little-endian reading of `[a,b,c,d]` is the big-endian reading of `[d,c,b,a]` -/
+theorem fourcc_orders (a b c d : UInt8) :
+    parseChunkId [a, b, c, d] 0 .le = parseChunkId [d, c, b, a] 0 .be := by
+  simp [parseChunkId, slice]
+
+/-- printable bytes are reported unchanged -/
+theorem fourcc_printable (b : UInt8) (h : 0x20 ≤ b.toNat ∧ b.toNat ≤ 0x7a) : sanitize b = Char.ofNat b.toNat := by
+  simp [sanitize, h]
+
+/-! (b) the chunk walk partitions the movie: every chunk, in order, with exactly its payload; one loop
+    iteration per chunk (no byte skipped or read twice); any prefix, both byte orders, any FourCC bytes,
+    any payload length < 2^31 including 0 and odd lengths -/
+
+theorem walk_partition (o : Order) (pre : Bytes) (len : Int) (hlen : In32 len)
+    (cs : List SChunk) (hwf : ∀ c ∈ cs, c.WF) :
+    parseRiff (encMovie o pre len cs) pre.length o = .ok (cs.map SChunk.view) :=
+  parseRiff_encMovie o pre len hlen cs hwf
+
+theorem walk_one_iteration_per_chunk (o : Order) (pre : Bytes) (cs : List SChunk) (hwf : ∀ c ∈ cs, c.WF) :
+    walkSteps (pre ++ encChunks o cs) o pre.length = cs.length :=
+  walkSteps_encChunks o cs hwf pre
+
+/-- the spans `[offset_i, offset_i + 8 + len_i + len_i % 2)` tile the body: the encoded length is the sum of spans -/
+theorem spans_tile (o : Order) (cs : List SChunk) (hwf : ∀ c ∈ cs, c.WF) :
+    (encChunks o cs).length = (cs.map chunkSpan).sum := by
+  induction cs with
+  | nil => rfl
+  | cons c cs ih =>
+    simp only [encChunks, List.length_append, List.map_cons, List.sum_cons]
+    rw [encChunk_length o c (hwf c (by simp)), ih (fun c' h => hwf c' (by simp [h]))]
+
+/-! (c) offset lookup mirrors the walk -/
+
+theorem offset_lookup_hit (before : List SChunk) (c : SChunk) (after : List SChunk) :
+    getByOffset ((before ++ c :: after).map SChunk.view) (offsetAfter before) = .ok c.view := by
+  have := getByOffsetAux_hit before c after 12
+  unfold getByOffset offsetAfter
+  rw [← this]; congr 1
+
+theorem offset_lookup_miss (cs : List SChunk) (q : Int)
+    (h : ∀ before c after, cs = before ++ c :: after → q ≠ (offsetAfter before : Int)) :
+    getByOffset (cs.map SChunk.view) q = .error .index := by
+  apply getByOffsetAux_miss
+  intro pre c post hcs
+  have := h pre c post hcs
+  unfold offsetAfter at this
+  intro e; apply this; rw [e]; push_cast; rfl
+
+/-! (d) imap / mmap round trips over all field values -/
+
+theorem imap_roundtrip (o : Order) (m : Imap) (last : Int) (h : m.WF) : parseImap (encImap o m last) o = .ok m :=
+  parseImap_encImap o m last h
+
+theorem mmap_roundtrip (o : Order) (h : SMmapHdr) (es : List SEntry) (tail : Bytes)
+    (hh : h.WF) (hn : es.length < 2 ^ 31) (hwf : ∀ e ∈ es, e.WF) :
+    parseMmap (encMmap o h es tail) o =
+      .ok ⟨h.propertiesSize, h.resourceSize, h.maxCount, es.length, h.firstJunk, h.oldMap, h.firstFree, es.map SEntry.view⟩ :=
+  parseMmap_encMmap o h es tail hh hn hwf
+
+/-! (e) designated bytes: a map entry whose recorded offset is the absolute file position of a chunk (prefix
+    included) is found, through the lookup at `offset - prefix`, with exactly that chunk's sanitised type and payload -/
+
+theorem designated_bytes (o : Order) (pre : Bytes) (len : Int) (hlen : In32 len)
+    (before : List SChunk) (c : SChunk) (after : List SChunk) (hwf : ∀ x ∈ before ++ c :: after, x.WF)
+    (entryOffset : Int) (he : entryOffset = (pre.length : Int) + (offsetAfter before : Int)) :
+    (parseRiff (encMovie o pre len (before ++ c :: after)) pre.length o).bind
+        (fun chunks => getByOffset chunks (entryOffset - pre.length)) = .ok c.view := by
+  rw [walk_partition o pre len hlen _ hwf]
+  simp only [Except.bind]
+  have : entryOffset - (pre.length : Int) = (offsetAfter before : Int) := by omega
+  rw [this]; exact offset_lookup_hit before c after
+
+/-! (f) the embedded-movie locator returns the first genuine header, whatever decoys precede it -/
+
+theorem locator_first_genuine (b : Bytes) (p : Nat) (hg : Genuine b p) (hmin : ∀ q, q < p → ¬ Genuine b q) :
+    findRiffInExe b = p :=
+  findRiffInExe_first_genuine b p hg hmin
+
+/-! ### non-vacuity: the hypotheses are met by concrete, non-trivial objects -/
+
+def exChunks : List SChunk := [⟨[0x69, 0x6d, 0x61, 0x70], [1, 2, 3]⟩, ⟨[0x80, 0xff, 0x00, 0x7b], []⟩, ⟨[0x41, 0x42, 0x43, 0x44], [9]⟩]
+
+instance (i : Int) : Decidable (In32 i) := by unfold In32; exact inferInstance
+instance (i : Int) : Decidable (In16 i) := by unfold In16; exact inferInstance
+instance (b : Bytes) (p : Nat) : Decidable (Genuine b p) := by unfold Genuine; exact inferInstance
+
+theorem exChunks_wf : ∀ c ∈ exChunks, c.WF := by decide
+example : parseRiff (encMovie .le [7, 7, 7] 100 exChunks) 3 .le = .ok (exChunks.map SChunk.view) :=
+  walk_partition .le [7, 7, 7] 100 (by decide) exChunks exChunks_wf
+example : (exChunks.map SChunk.view).map (·.id) = ["imap".toList, "____".toList, "ABCD".toList] := by decide
+example : In32 (-1) ∧ In16 (-32768) := by decide
+-- a decoy `XFIR` (without `39VM`) at 5, preceded by an overlapping partial decoy, the genuine header at 9
+def exExe : Bytes := [0x58, 0x46, 0x58, 0x46, 0x49] ++ XFIR ++ XFIR ++ [0, 0, 0, 0] ++ VM39
+theorem exExe_genuine : Genuine exExe 9 ∧ ∀ q, q < 9 → ¬ Genuine exExe q := by
+  refine ⟨by decide, ?_⟩
+  intro q hq
+  have : q = 0 ∨ q = 1 ∨ q = 2 ∨ q = 3 ∨ q = 4 ∨ q = 5 ∨ q = 6 ∨ q = 7 ∨ q = 8 := by omega
+  rcases this with rfl | rfl | rfl | rfl | rfl | rfl | rfl | rfl | rfl <;> decide
+example : findRiffInExe exExe = 9 := locator_first_genuine exExe 9 exExe_genuine.1 exExe_genuine.2
 
 end Drx.C01
